@@ -79,7 +79,7 @@ def run(ctx):
     base = [a for a in adr if not a.guards]
     ovr = [a for a in adr if a.guards]
     ok = len(base) == 1 and base[0].v == "bus.adr[:len(port.adr)]" and len(ovr) == 1 and \
-        B.equivalent(ovr[0].eff(), B.from_expr("adr_burst & adr_latched")) and ovr[0].order > base[0].order and \
+        q.EQ(ovr[0], B.from_expr("adr_burst & adr_latched")) and ovr[0].order > base[0].order and \
         ovr[0].v.startswith("adr_next[")
     ctx.ob("A1", WB, "SRAM", "address: bus.adr, overridden by the burst counter only under burst & latched", ok,
            "" if ok else f"{[(a.v, a.gtext()) for a in adr]}", ovr[0].line if ovr else 0)
@@ -157,7 +157,7 @@ def run(ctx):
     from ..rules_stream import s_range
     s_range(ctx, "A2", fx, "DownConverter", "count")
     ma = fx.find(domain="comb", target="master.ack")
-    ok = len(ma) == 1 and ma[0].v == "done" and B.equivalent(ma[0].eff(), B.from_expr("master.stb & master.cyc & (slave.ack | skip)"))
+    ok = len(ma) == 1 and ma[0].v == "done" and q.EQ(ma[0], B.from_expr("master.stb & master.cyc & (slave.ack | skip)"))
     ctx.ob("A2", WB, "DownConverter", "master.ack = done under stb & cyc & (slave.ack | skip)", ok, "" if ok else f"{[(a.v, a.gtext()) for a in ma]}")
     d = fx.find(domain="comb", target="done")
     ok = len(d) == 1 and d[0].v == "count == ratio - 1"
@@ -167,20 +167,20 @@ def run(ctx):
     ctx.ob("A2", WB, "DownConverter", "slave.adr = Cat(count, master.adr)", ok, "" if ok else f"{[a.v for a in sa]}")
     for tgt, unit in (("slave.dat_w", "i * dw_to"), ("slave.sel", "i * dw_to // 8")):
         ds = fx.find(domain="comb", target=tgt)
-        ok = len(ds) == 1 and B.equivalent(ds[0].eff(), B.A("count == i"))
+        ok = len(ds) == 1 and q.EQ(ds[0], B.A("count == i"))
         if ok:
             vb, vlo, vhi = _slice_parts(ds[0].v)
             ok = vb == tgt.replace("slave", "master") and vlo == unit
         ctx.ob("A2", WB, "DownConverter", f"{tgt}: sub-word `count` of the master word", ok, "" if ok else f"{[(a.v, a.gtext()) for a in ds]}")
     sh = fx.find(domain="sync", target="dat_r")
-    ok = len(sh) == 1 and sh[0].v == "master.dat_r" and B.equivalent(sh[0].eff(), B.from_expr("slave.ack | skip"))
+    ok = len(sh) == 1 and sh[0].v == "master.dat_r" and q.EQ(sh[0], B.from_expr("slave.ack | skip"))
     ctx.ob("A2", WB, "DownConverter", "read shift register steps with each sub-word", ok, "" if ok else f"{[(a.v, a.gtext()) for a in sh]}")
     md = fx.find(domain="comb", target="master.dat_r")
     ok = len(md) == 1 and md[0].v == "Cat(dat_r[dw_to:], slave.dat_r)"
     ctx.ob("A2", WB, "DownConverter", "master.dat_r = Cat(shifted, slave.dat_r)", ok, "" if ok else f"{[a.v for a in md]}")
     for tgt in ("slave.cyc", "slave.stb"):
         ds = fx.find(domain="comb", target=tgt)
-        ok = len(ds) == 1 and ds[0].v == "~skip" and B.equivalent(ds[0].eff(), B.from_expr("master.stb & master.cyc"))
+        ok = len(ds) == 1 and ds[0].v == "~skip" and q.EQ(ds[0], B.from_expr("master.stb & master.cyc"))
         ctx.ob("A2", WB, "DownConverter", f"{tgt} = ~skip within the master cycle", ok, "" if ok else f"{[(a.v, a.gtext()) for a in ds]}")
     sk = fx.find(domain="comb", target="skip")
     ok = len(sk) == 1 and B.entails(B.from_expr(sk[0].value), B.A("slave.sel == 0"))
@@ -200,10 +200,10 @@ def run(ctx):
     ok = edges == want
     ctx.ob("A3", WB, "Cache", "FSM graph IDLE/TEST_HIT/EVICT/REFILL", ok, "" if ok else f"{edges}")
     mw = [a for a in fx.find(domain="comb", target="data_port.we") if "master.sel" in a.v]
-    ok = len(mw) == 1 and B.entails(mw[0].eff(), B.from_expr("master.cyc & master.stb & master.we & master.ack & ~write_from_slave"))
+    ok = len(mw) == 1 and q.IMP(mw[0], B.from_expr("master.cyc & master.stb & master.we & master.ack & ~write_from_slave"))
     ctx.ob("A3", WB, "Cache", "master byte enables only on an acknowledged write", ok, "" if ok else f"{[(a.v, a.gtext()) for a in mw]}")
     dirty = fx.find(domain="comb", target="tag_di.dirty")
-    ok = len(dirty) == 1 and dirty[0].state[1] == "TEST_HIT" and B.entails(dirty[0].eff(), B.from_expr("master.we & (tag_do.tag == adr_tag)"))
+    ok = len(dirty) == 1 and dirty[0].state[1] == "TEST_HIT" and q.IMP(dirty[0], B.from_expr("master.we & (tag_do.tag == adr_tag)"))
     ctx.ob("A3", WB, "Cache", "dirty set only by a write hit", ok, "" if ok else f"{[(a.state, a.gtext()) for a in dirty]}")
     # a tag write on a hit re-writes the whole entry: it must carry dirty = 1, or a read hit would clean a modified line
     hit = B.A("tag_do.tag == adr_tag")
@@ -217,10 +217,10 @@ def run(ctx):
                "" if ok else f"tag_port.we under {B.show(a.eff())} can fire on a hit without tag_di.dirty = 1 ({B.show(Gd)}): the dirty bit "
                              f"of a modified line is cleared, its write-back is skipped on eviction; e.g. {B.counterexample(G, Gd)}", a.line)
     wfs = fx.find(domain="comb", target="write_from_slave")
-    ok = len(wfs) == 1 and wfs[0].state[1] == "REFILL" and B.equivalent(wfs[0].eff(), B.A("slave.ack"))
+    ok = len(wfs) == 1 and wfs[0].state[1] == "REFILL" and q.EQ(wfs[0], B.A("slave.ack"))
     ctx.ob("A3", WB, "Cache", "line written from the slave only in REFILL on slave.ack", ok, "" if ok else f"{[(a.state, a.gtext()) for a in wfs]}")
     ack = fx.find(domain="comb", target="master.ack")
-    ok = len(ack) == 1 and ack[0].state[1] == "TEST_HIT" and B.equivalent(ack[0].eff(), B.A("tag_do.tag == adr_tag"))
+    ok = len(ack) == 1 and ack[0].state[1] == "TEST_HIT" and q.EQ(ack[0], B.A("tag_do.tag == adr_tag"))
     ctx.ob("A3", WB, "Cache", "master acknowledged only on a tag hit", ok, "" if ok else f"{[(a.state, a.gtext()) for a in ack]}")
     # tag written on both miss paths into REFILL
     for t in [t for t in fx.trans if t.dst == "REFILL" and t.src != "REFILL"]:
@@ -233,11 +233,11 @@ def run(ctx):
         ok = any(B.entails(G, a.eff()) for a in wc)
         ctx.ob("A3", WB, "Cache", f"word counter cleared when {t.src} enters REFILL", ok, "" if ok else "word not cleared", t.line)
     ev = [t for t in fx.trans if t.src == "TEST_HIT" and t.dst == "EVICT"]
-    ok = len(ev) == 1 and B.entails(ev[0].eff(), B.from_expr("tag_do.dirty & ~(tag_do.tag == adr_tag)"))
+    ok = len(ev) == 1 and q.IMP(ev[0], B.from_expr("tag_do.dirty & ~(tag_do.tag == adr_tag)"))
     ctx.ob("A3", WB, "Cache", "evict only dirty lines on a miss", ok, "" if ok else f"{[t.gtext() for t in ev]}")
     for st in ("EVICT", "REFILL"):
         wi = [a for a in fx.find(domain="comb", target="word_inc") if a.state == (info.id, st)]
-        ok = len(wi) == 1 and B.equivalent(wi[0].eff(), B.A("slave.ack"))
+        ok = len(wi) == 1 and q.EQ(wi[0], B.A("slave.ack"))
         ctx.ob("A3", WB, "Cache", f"word steps per slave.ack in {st}", ok, "" if ok else f"{[a.gtext() for a in wi]}")
         swe = [a for a in fx.find(domain="comb", target="slave.we") if a.state == (info.id, st)]
         ok = len(swe) == 1 and swe[0].v == ("1" if st == "EVICT" else "0")
@@ -315,7 +315,7 @@ def run(ctx):
     ok = len(da) == 1 and len(df) == 3 and df.get("src_adr") == 1 and len(pos) == 1 and len(neg) == 1 and "dst" in pos[0] and "src" in neg[0]
     ctx.ob("A4", WB, "Remapper", "dst = dst.origin + (src - src.origin)", ok, "" if ok else f"{[a.v for a in da]}")
     ra = [a for a in fx.find(domain="comb", target="slave.adr") if a.guards]
-    ok = len(ra) == 1 and B.equivalent(ra[0].eff(), B.A("active")) and ra[0].v.startswith("dst_adr >>")
+    ok = len(ra) == 1 and q.EQ(ra[0], B.A("active")) and ra[0].v.startswith("dst_adr >>")
     ctx.ob("A4", WB, "Remapper", "redirected exactly when active", ok, "" if ok else f"{[(a.v, a.gtext()) for a in ra]}")
 
     # ================================================================ A5 Wishbone2CSR
@@ -332,7 +332,7 @@ def run(ctx):
             if ok:
                 f = B.from_expr(ds[0].value)
                 ok = B.equivalent(f, B.from_expr(f"{pol} & (self.wishbone.sel != 0)")) and \
-                    B.equivalent(ds[0].eff(), B.from_expr("self.wishbone.cyc & self.wishbone.stb"))
+                    q.EQ(ds[0], B.from_expr("self.wishbone.cyc & self.wishbone.stb"))
             ctx.ob("A5", WB, "Wishbone2CSR", f"{tag}: {strobe} = {pol} & sel != 0 under cyc & stb", ok,
                    "" if ok else f"{[(a.v, a.gtext()) for a in ds]}", ds[0].line if ds else 0)
         acks = [a for a in fx.find(domain="comb", target="self.wishbone.ack") if a.state and a.state[0] == info.id]
@@ -345,7 +345,7 @@ def run(ctx):
         ok = len(adr) == 1 and adr[0].v.startswith("self.wishbone.adr[") and adr[0].v.endswith(":]")
         ctx.ob("A5", WB, "Wishbone2CSR", f"{tag}: csr.adr = wishbone.adr[shift:]", ok, "" if ok else f"{[a.v for a in adr]}")
         first = [t for t in fx.trans if t.fsm == info.id and t.src == info.reset_state]
-        ok = len(first) == 1 and B.equivalent(first[0].eff(), B.from_expr("self.wishbone.cyc & self.wishbone.stb"))
+        ok = len(first) == 1 and q.EQ(first[0], B.from_expr("self.wishbone.cyc & self.wishbone.stb"))
         ctx.ob("A5", WB, "Wishbone2CSR", f"{tag}: access starts only on cyc & stb", ok, "" if ok else f"{[t.gtext() for t in first]}")
         if reg:
             for strobe in ("self.csr.we", "self.csr.re"):
